@@ -213,6 +213,17 @@ def obligations(tier, seed):
                  contract_text='baillie_psw(n), every n: miller_rabin and strong_lucas are called within their preconditions (strong_lucas never sees 2^64-1 because the base-2 round '
                                'rejects it: fact obligation above); result is one of the three PrimeResult values.  That the answer is PROBABLY_PRIME exactly for primes is ASSUMED',
                  fns=('au::detail::baillie_psw',)))
+    pc = dict(CONTRACTS['pollard'], requires=[], ensures=[], expose=['m_t'])
+    obs.append(Ob(id='C12.structure.find_pollard_rho_factor', prop='C12', group='C12', prelude=PRE, wrappers=WRAPS, inputs=[('uint64_t', 'n')], body='''
+  ASSUME(n > 4);
+  uint64_t r = TARGET(n);
+  CHECK(r >= 1 && r <= n, "result-in-1-to-n");
+  CHECK(r < n || ll2c_exit_m_t >= n / 2, "n-itself-is-returned-only-after-every-parameter-t-was-tried");
+''', kind='L', promote=False, wrap=False, budget=300,
+                  dfcc=dict(target=M['pollard'], replace=[M['x2t'], M['gcd'], M['absdiff']],
+                            contracts={M['pollard']: pc, M['x2t']: CONTRACTS['x2t'], M['gcd']: CONTRACTS['gcd_div'], M['absdiff']: CONTRACTS['absdiff']}),
+                  contract='find_pollard_rho_factor(n), n > 4: the failure value n is returned only when the parameter loop is exhausted (t >= n/2 at exit); a factor handed back from inside '
+                           'the loop is < n.  Callees under their contracts; gcd in [1, n] ASSUMED', functions_under_contract=('au::detail::find_pollard_rho_factor',)))
     obs.append(D('C12.callsites.find_pollard_rho_factor', 'pollard', '  uint64_t n;\n  f_%s(n);' % M['pollard'], replace=('x2t', 'gcd', 'absdiff'), wrap=False,
                  contracts={M['gcd']: CONTRACTS['gcd_div']}, must=('postcondition', 'precondition', 'step'),
                  contract_text='find_pollard_rho_factor(n), requires n > 4: x_squared_plus_t_mod_n is always called with x < n and t < n (both loops: tortoise, hare < n; t < n/2), '
